@@ -10,6 +10,7 @@ pub mod io;
 pub mod gm;
 pub mod hotplug;
 pub mod build;
+pub mod zero;
 #[cfg(feature = "xen")]
 pub mod xen;
 
@@ -63,6 +64,7 @@ pub fn all_scenarios() -> Vec<&'static dyn Scenario> {
     v.push(&hotplug::SEQ);
     v.push(&hotplug::CONC);
     v.push(&build::BUILD);
+    v.push(&zero::ZERO);
     #[cfg(feature = "xen")]
     v.push(&xen::XEN);
     v
@@ -194,6 +196,15 @@ pub fn checks() -> Vec<Check> {
         real: vec!["vm_memory::mmap (check_file_offset, MmapRegionBuilder::build/build_raw, GuestRegionMmap::new; xen: MmapRegion::from_range, MmapXen*, MmapXenFlags) compiled from /repo working tree", "kernel mmap / memfd / pipe / lseek / pread / pwrite when the injector passes through (where the kernel decides a flag combination, its real verdict is the reference)"],
         stub: vec!["injected mmap failures", "xen build: emulated gntdev/privcmd device, injected ioctl failures"],
         needs_seam_events: true,
+    });
+    v.push(Check {
+        prop: "C18",
+        parts: vec![Part { name: "S-zero", xen: false, quick: 100_000, thorough: 4_000_000 }, Part { name: "S-zero", xen: true, quick: 60_000, thorough: 3_000_000 }],
+        rule: "runs are up to 10 zero-length requests (empty buffers, zero-sized objects, zero-count stream transfers, copies of zero elements and of the crate-provided zero-sized element types) at slice, region and guest-memory level - and, in the xen build, on grant / foreign regions mapped in advance and on demand - at mapped addresses, one past a region, in a hole, 0 and the maximum address, on empty containers, interleaved at operation granularity with another actor's non-empty writes; distinct = distinct event-log hash; non-trivial = at least one request succeeded and (one was refused or more than three were issued)",
+        assumptions: COMMON_ASSUMPTIONS.to_vec(),
+        real: vec!["vm_memory Bytes implementations of VolatileSlice / GuestRegionMmap / GuestMemory, copy helpers, xen temporary mappings (compiled from /repo working tree, both builds)"],
+        stub: vec!["xen build: emulated gntdev/privcmd device and simulated MMU", "actor interleaving at operation granularity (seeded)"],
+        needs_seam_events: false,
     });
     v.push(Check {
         prop: "C17",
